@@ -104,7 +104,7 @@ def run_case(case, ctx):
             ctx.need(set(got) == exp, "SpanSet/%s/wrong-members" % name,
                      lambda: "A(%s)=%r %s B(%s)=%r gives %r, definition gives %r" % (REL_NAMES[ra], ka, name, REL_NAMES[rb], kb, got, sorted(exp)))
             # the result is a plain (exact-match) set
-            for x in univ:
+            for x in list(univ) + sorted(probes - set(univ)):
                 r = g(name, lambda: x in res)
                 ctx.need(r == (x in exp), "SpanSet/%s/result-not-exact-membership" % name, lambda: "%r in result %r = %r" % (x, got, r))
         le = all(in_b(x) for x in ka)
